@@ -8,6 +8,28 @@ use aws_smt_strings::character_sets::CharSet;
 use aws_smt_strings::errors::Error;
 
 /// replay the builder calls on the real builder
+/// like build_spec, but build() is called twice on the same builder; returns the SECOND result
+pub fn build_spec_twice(spec: &Spec) -> Result<Result<Automaton, Error>, String> {
+    guard(|| {
+        let mut b: AutomatonBuilder<u32> = AutomatonBuilder::new(&spec.init);
+        for c in &spec.calls {
+            match c {
+                Call::Trans(s, a, x, t) => {
+                    b.add_transition(s, &CharSet::range(*a, *x), t);
+                }
+                Call::Default(s, t) => {
+                    b.set_default_successor(s, t);
+                }
+                Call::Final(s) => {
+                    b.mark_final(s);
+                }
+            }
+        }
+        let _ = b.build();
+        b.build()
+    })
+}
+
 pub fn build_spec(spec: &Spec) -> Result<Result<Automaton, Error>, String> {
     guard(|| {
         let mut b: AutomatonBuilder<u32> = AutomatonBuilder::new(&spec.init);
